@@ -58,6 +58,9 @@ class Program:
         for i, t in enumerate(self.toks):
             if t.lex == "?>" and i > 0 and self.toks[i - 1].text == b";":
                 raise Skip()
+            # "{" opens an interpolated expression only when a "$" follows it at once ("{$a->b}", not "{A::$b}")
+            if t.lex == "{" and t.glue == "LR" and i + 1 < len(self.toks) and not self.toks[i + 1].text.startswith(b"$"):
+                raise Skip()
 
     # ---- spelling
     def _spell(self, lex):
